@@ -699,17 +699,18 @@ Section LexWrite.
   Qed.
 End LexWrite.
 
-(* the statement on lex_top: the token stream the parser receives for the text of config_write *)
-Theorem lex_top_written fmt_double atof FS c kids f h l fi :
+(* the statement on lex_top: the token stream the parser receives for the text of config_write; the reading
+   configuration c2 (include directory, include function) may be any *)
+Theorem lex_top_written fmt_double atof FS c c2 kids f h l fi :
   c_root c = Setting None PGroup kids f h l fi -> kids <> [] -> writable fmt_double atof c (c_root c) ->
-  exists toks, lex_top atof FS c None (config_write fmt_double c) = (toks, StopEOB) /\
+  exists toks, lex_top atof FS c2 None (config_write fmt_double c) = (toks, StopEOB) /\
                map lt_tok toks = flat_map (piece_tok fmt_double atof c) (pieces c (c_root c) 0) ++ [TkEOF].
 Proof.
   intros Hroot Hk Hw. unfold lex_top, config_write. cbv zeta. rewrite Hroot. cbn [s_name app].
   replace (Z.to_nat MAX_INCLUDE_DEPTH + 1)%nat with (S (Z.to_nat MAX_INCLUDE_DEPTH)) by lia.
   cbn [lex_depth].
-  destruct (lex_written fmt_double atof FS (c_incdir c) (c_incfn c) MAX_INCLUDE_DEPTH c None kids f h l fi
-              (Some (lex_files FS (lex_depth the_tables yy_rule_can_match_eol yy_actions atof FS (c_incdir c) (c_incfn c)
+  destruct (lex_written fmt_double atof FS (c_incdir c2) (c_incfn c2) MAX_INCLUDE_DEPTH c None kids f h l fi
+              (Some (lex_files FS (lex_depth the_tables yy_rule_can_match_eol yy_actions atof FS (c_incdir c2) (c_incfn c2)
                                              MAX_INCLUDE_DEPTH (Z.to_nat MAX_INCLUDE_DEPTH))))
               Hroot Hk Hw eq_refl) as (toks & st' & line & E & T).
   rewrite Hroot in E. change Reader.the_tables with ScannerCert.the_tables. rewrite E. cbn [emit]. eexists. split; [reflexivity|].
